@@ -38,7 +38,7 @@ def run(tier, seed):
                 "buffer x destination mode on ONE object (object sizes 2^3..2^6); each call's output compared with the reference "
                 "transform of its own arguments (= what a fresh object returns, C03-C05) and with the model, whose object carries the "
                 "r-cache explicitly; non-trivial = history with two extendPol calls of different N")
-    res.assumptions = ["hand model Model/Ntt.lean tied to the code by execution on the listed histories — and ALSO by bridge theorems: the functions are regenerated from the source on every run and proved equal to the hand model (C19_generated_*), so the theorems hold for the current text, not only on the executed cases (histories of NTT/INTT/extendPol without caller buffer in extendPol)"]
+    res.assumptions = ["hand model Model/Ntt.lean tied to the code by execution on the listed histories — and ALSO by bridge theorems: the functions are regenerated from the source on every run and proved equal to the hand model (C19_generated_*), so the theorems hold for the current text, not only on the executed cases (histories of NTT/INTT/extendPol with or without caller scratch buffer, dst == NULL included: C19_generated_history_buffers; constructor -> history -> destructor: C19_generated_life_then_dtor; the caller's blocks are a fixed set that exists when the history starts)"]
     st = run_gen()
     standard_proof_phase(res, MODULE, "C19_", st, ["Scalar", "NttGen"], thorough=(tier == "thorough"))
     drv, err = build_driver()
